@@ -69,4 +69,14 @@ def sampleSurface {N} (dflt : N) (pc rn : Bool) (V : List V3) (F : List (Nat × 
     (draws : List (Nat × Rat × Rat)) : Out N :=
   wrapSurface pc rn (surfacePoints V F draws) (sampledNormals dflt normals (draws.map (·.1)))
 
+/-- a history of calls on ONE mesh object (options and draws per call): the model carries no state from one call to
+the next — the samplers only read the mesh (checked on the source by the translator: no store into `mesh`, attributes
+computed with `persistent=False`) -/
+def surfaceCalls {N} (dflt : N) (V : List V3) (F : List (Nat × Nat × Nat)) (normals : List N)
+    (calls : List (Bool × Bool × List (Nat × Rat × Rat))) : List (Out N) :=
+  calls.map (fun c => sampleSurface dflt c.1 c.2.1 V F normals c.2.2)
+
+def polylineCalls (V : List V3) (E : List (Nat × Nat)) (calls : List (Bool × List (Nat × Rat))) : List (Out Unit) :=
+  calls.map (fun c => samplePolyline c.1 V E c.2)
+
 end Mouette.SamplingWrap
